@@ -18,6 +18,7 @@ type Method struct {
 	Verb      string `json:"verb"`
 	Path      string `json:"path"`
 	OutputDir string `json:"output_dir"`
+	Extra     bool   `json:"extra_annotation,omitempty"`
 }
 
 type Case struct {
@@ -39,7 +40,7 @@ func main() {
 	var ms []*generator.HttpMethod
 	for _, m := range c.Methods {
 		ms = append(ms, &generator.HttpMethod{
-			Name: m.Name, HTTPMethod: m.Verb, Path: m.Path, Serializer: "JSON", ReturnTypeName: "struct{}", GenHandler: true, OutputDir: m.OutputDir,
+			Name: m.Name, HTTPMethod: m.Verb, Path: m.Path, Serializer: "JSON", ReturnTypeName: "struct{}", GenHandler: !m.Extra, OutputDir: m.OutputDir,
 		})
 	}
 	pkg := &generator.HttpPackage{IdlName: "api.thrift", Package: "api", Services: []*generator.Service{{Name: "Svc", Methods: ms}}}
